@@ -321,6 +321,15 @@ def visit(visitor, obj, attr, cff):
                     setattr(private, attr, visitor.scale(value))
 
 
+# avar: axis mappings, and the deltas of an avar 2 variation store, are in normalized
+# coordinates, not in font units.
+
+
+@ScalerVisitor.register(ttLib.getTableClass("avar"))
+def visit(visitor, avar):
+    return False
+
+
 # ItemVariationStore
 
 
